@@ -183,6 +183,19 @@ def package_programs():
         types.append(space.union("U%d" % i, [space.field("t%d" % j, space.ref("T%d" % j, q)) for j, q in enumerate(pkgs)], p))
         types.append(space.alias("A%d" % i, space.lst(space.ref("U%d" % ((i + 1) % len(pkgs)), pkgs[(i + 1) % len(pkgs)])), p))
         types.append(space.enum("E%d" % i, ["X"], p))
+        # aliases of aliases (and of optionals / sets / maps of aliases) that live in other packages:
+        # every type path the alias's impls mention is relative to the *outer* alias's module
+        nxt, nxp = (i + 3) % len(pkgs), pkgs[(i + 3) % len(pkgs)]
+        types.append(space.alias("AA%d" % i, space.ref("A%d" % nxt, nxp), p))
+        types.append(space.alias("AAA%d" % i, space.ref("AA%d" % nxt, nxp), p))
+        types.append(space.alias("AS%d" % i, space.st(space.ref("E%d" % nxt, nxp)), p))
+        types.append(space.alias("AAS%d" % i, space.ref("AS%d" % ((i + 5) % len(pkgs)), pkgs[(i + 5) % len(pkgs)]), p))
+        types.append(space.alias("AM%d" % i, space.mp(space.ref("E%d" % nxt, nxp), space.ref("T%d" % ((i + 4) % len(pkgs)), pkgs[(i + 4) % len(pkgs)])), p))
+        types.append(space.alias("AAM%d" % i, space.ref("AM%d" % ((i + 6) % len(pkgs)), pkgs[(i + 6) % len(pkgs)]), p))
+        types.append(space.alias("AO%d" % i, space.opt(space.ref("AA%d" % ((i + 7) % len(pkgs)), pkgs[(i + 7) % len(pkgs)])), p))
+        types.append(space.alias("AE%d" % i, space.ref("E%d" % nxt, nxp), p))
+        types.append(space.alias("AAE%d" % i, space.ref("AE%d" % ((i + 2) % len(pkgs)), pkgs[(i + 2) % len(pkgs)]), p))
+        types.append(space.obj("H%d" % i, [space.field("a", space.ref("AAA%d" % nxt, nxp)), space.field("s", space.ref("AAS%d" % nxt, nxp)), space.field("m", space.ref("AAM%d" % nxt, nxp)), space.field("o", space.ref("AO%d" % nxt, nxp)), space.field("k", space.mp(space.ref("AAE%d" % nxt, nxp), S))], p))
     errs = [space.error("Bad", "Ns", "CONFLICT", [space.field("t", space.ref("T2", pkgs[2]))], [], "com.verif.a")]
     svcs = [space.service("Svc%d" % i, [space.endpoint("e", "POST", "/e", [space.arg("body", space.ref("T%d" % ((i + 2) % len(pkgs)), pkgs[(i + 2) % len(pkgs)]), "body")], returns=space.ref("A%d" % i, p))], p) for i, p in enumerate(pkgs)]
     ir = space.ir(types, svcs, errs)
@@ -424,7 +437,12 @@ def full_crate_programs():
     {types, errors, services}: the dependency list must cover what the emitted code uses"""
     RID, DT, UUIDT, SL, BIN, ANY, BT = (space.prim(x) for x in ("RID", "DATETIME", "UUID", "SAFELONG", "BINARY", "ANY", "BEARERTOKEN"))
     types = [space.obj("Thing", [space.field("rid", RID), space.field("at", space.opt(DT)), space.field("ratio", D), space.field("blob", BIN), space.field("more", space.lst(R("Thing")))], PKG),
-             space.union("Either", [space.field("thing", R("Thing")), space.field("n", SL)], PKG), space.enum("Kind", ["ONE", "TWO"], PKG), space.alias("Id", UUIDT, PKG)]
+             space.union("Either", [space.field("thing", R("Thing")), space.field("n", SL)], PKG), space.enum("Kind", ["ONE", "TWO"], PKG), space.alias("Id", UUIDT, PKG),
+             # every alias family (the emitted crate declares its own edition: what the impls name must be in that edition's prelude or spelled out)
+             space.alias("Names", space.lst(S), PKG), space.alias("IdSet", space.st(R("Id")), PKG), space.alias("ByKind", space.mp(R("Kind"), R("Thing")), PKG), space.alias("MaybeId", space.opt(R("Id")), PKG),
+             space.alias("Ratio", D, PKG), space.alias("Ratios", space.st(D), PKG), space.alias("NamesAgain", R("Names"), PKG), space.alias("Blob", BIN, PKG), space.alias("Tok", BT, PKG), space.alias("Whatever", ANY, PKG),
+             space.obj("Holder", [space.field("names", R("NamesAgain")), space.field("ids", R("IdSet")), space.field("by", R("ByKind")), space.field("maybe", R("MaybeId")), space.field("ratios", R("Ratios")), space.field("w", R("Whatever")), space.field("dk", space.mp(D, space.lst(space.opt(D))))], PKG),
+             space.union("Pick", [space.field("unknown", S), space.field("names", R("Names")), space.field("ratio", R("Ratio"))], PKG), space.obj("Empty", [], PKG)]
     out = []
     for mask in range(1, 8):
         has_t, has_e, has_s = bool(mask & 1), bool(mask & 2), bool(mask & 4)
